@@ -1,8 +1,279 @@
 import Gonuts.Model.Sexp
-/-! Driver commands `spend.*` (stateless): filled in by the Spend model. Core-only imports. -/
-namespace Gonuts.Model.SpendDriver
-open Gonuts
+import Gonuts.Model.Spend
+import Gonuts.Spec.Spendable
+/-!
+  Driver commands `spend.*` (stateless).  Core-only imports.
 
-def handle (_cmd : String) (_args : List Sexp) : Option Sexp := none
+  Wire format (all ids are naturals chosen by the harness):
+    ENV     = (env NOW ((KEYSTR ID|bad) …) ((SIG KEY MSG) …) ((BYTESHEX HASHHEX) …))
+    SECRET  = plain | (secret p2pk|htlc|anyone "data" (("tag" "v" …) …))
+    WITNESS = (w true|false (SIG …) "preimage")
+    PROOF   = (proof SECRET MSG WITNESS)
+    OUTPUT  = (out MSG|none MSGTEXT WITNESS)
+    SIGN    = ((KEY MSG SIG) …)            -- table of the signing function used by the helpers
+  A key string, preimage or (key,msg) pair the model would have to look up but that is missing from
+  its table makes the op malformed (`none` → `(bad-op)`); nothing is defaulted.
+-/
+namespace Gonuts.Model.SpendDriver
+open Gonuts Gonuts.Model.Spend
+
+def asInt? : Sexp → Option Int
+  | .atom s =>
+    if s.startsWith "-" then (s.drop 1).toNat?.map (fun n => -(n : Int))
+    else s.toNat?.map (fun n => (n : Int))
+  | _ => none
+
+def ofInt (i : Int) : Sexp := .atom (toString i)
+
+def strs? (s : Sexp) : Option (List String) := do
+  let xs ← s.asList?
+  xs.mapM Sexp.asStr?
+
+structure EnvTab where
+  now : Int
+  keys : List (String × Option Key)
+  valid : List (Sig × Key × Msg)
+  sha : List (List UInt8 × String)
+
+def keyRow? (s : Sexp) : Option (String × Option Key) :=
+  match s with
+  | .list [k, .atom "bad"] => do some (← k.asStr?, none)
+  | .list [k, v] => do some (← k.asStr?, some (← v.asNat?))
+  | _ => none
+
+def validRow? (s : Sexp) : Option (Sig × Key × Msg) :=
+  match s with
+  | .list [a, b, c] => do some (← a.asNat?, ← b.asNat?, ← c.asNat?)
+  | _ => none
+
+def shaRow? (s : Sexp) : Option (List UInt8 × String) :=
+  match s with
+  | .list [a, b] => do some (← hexDecode (← a.asStr?), ← b.asStr?)
+  | _ => none
+
+def envTab? (s : Sexp) : Option EnvTab :=
+  match s with
+  | .list [.atom "env", now, keys, valid, sha] => do
+    some { now := ← asInt? now, keys := ← (← keys.asList?).mapM keyRow?,
+           valid := ← (← valid.asList?).mapM validRow?, sha := ← (← sha.asList?).mapM shaRow? }
+  | _ => none
+
+def EnvTab.toEnv (t : EnvTab) : Env where
+  now := t.now
+  parseKey := fun s => match t.keys.lookup s with
+    | some r => r
+    | none => none
+  valid := fun s k m => t.valid.contains (s, k, m)
+  sha256hex := fun bs => match t.sha.lookup bs with
+    | some h => h
+    | none => ""
+
+def kind? : Sexp → Option Kind
+  | .atom "p2pk" => some .p2pk
+  | .atom "htlc" => some .htlc
+  | .atom "anyone" => some .anyone
+  | _ => none
+
+def tags? (s : Sexp) : Option (List (List String)) := do
+  (← s.asList?).mapM strs?
+
+def secret? : Sexp → Option (Option Secret)
+  | .atom "plain" => some none
+  | .list [.atom "secret", k, d, tg] => do
+    some (some { kind := ← kind? k, data := ← d.asStr?, tags := ← tags? tg })
+  | _ => none
+
+def witness? : Sexp → Option Witness
+  | .list [.atom "w", ok, sigs, pre] => do
+    some { jsonOk := ← ok.asBool?, signatures := ← sigs.asNats?, preimage := ← pre.asStr? }
+  | _ => none
+
+def proof? : Sexp → Option Proof
+  | .list [.atom "proof", s, m, w] => do
+    some { secret := ← secret? s, msg := ← m.asNat?, witness := ← witness? w }
+  | _ => none
+
+def output? : Sexp → Option Output
+  | .list [.atom "out", md, mt, w] => do
+    let md' ← (match md with
+      | .atom "none" => some none
+      | x => x.asNat?.map some)
+    some { msgDecoded := md', msgText := ← mt.asNat?, witness := ← witness? w }
+  | _ => none
+
+def proofs? (s : Sexp) : Option (List Proof) := do (← s.asList?).mapM proof?
+def outputs? (s : Sexp) : Option (List Output) := do (← s.asList?).mapM output?
+
+/-! ### completeness of the tables for one op (nothing is defaulted) -/
+
+def keyStringsOfTags (tags : List (List String)) : List String :=
+  tags.flatMap fun tag =>
+    match tag with
+    | ty :: rest => if ty = PUBKEYS ∨ ty = REFUND then rest else []
+    | [] => []
+
+def keyStringsOfSecret (s : Secret) : List String :=
+  (if s.kind = .p2pk then [s.data] else []) ++ keyStringsOfTags s.tags
+
+def EnvTab.coversSecret (t : EnvTab) (s : Secret) : Bool :=
+  (keyStringsOfSecret s).all fun k => (t.keys.lookup k).isSome
+
+def EnvTab.coversPreimage (t : EnvTab) (pre : String) : Bool :=
+  match hexDecode pre with
+  | none => true
+  | some bs => (t.sha.lookup bs).isSome
+
+def EnvTab.coversProof (t : EnvTab) (p : Proof) : Bool :=
+  match p.secret with
+  | none => true
+  | some s => t.coversSecret s && (s.kind ≠ .htlc || t.coversPreimage p.witness.preimage)
+
+def EnvTab.coversOutput (t : EnvTab) (o : Output) : Bool := t.coversPreimage o.witness.preimage
+
+/-! ### rendering -/
+
+def ofOutcome : Outcome → Sexp
+  | .ok () => .atom "ok"
+  | .err e => .list [.atom "err", .atom e.name]
+
+def ofStrs (xs : List String) : Sexp := .list (xs.map Sexp.str)
+
+def ofTags (t : Tags) : Sexp :=
+  .list [.atom "tags", .str t.sigflag, Sexp.ofNat t.nSigs, Sexp.ofNats t.pubkeys, ofInt t.locktime, Sexp.ofNats t.refund]
+
+def ofWitness (w : Witness) : Sexp :=
+  .list [.atom "w", Sexp.ofBool w.jsonOk, Sexp.ofNats w.signatures, .str w.preimage]
+
+/-! ### the signing-function table of the helpers -/
+
+def signRow? (s : Sexp) : Option ((Key × Msg) × Sig) :=
+  match s with
+  | .list [a, b, c] => do some ((← a.asNat?, ← b.asNat?), ← c.asNat?)
+  | _ => none
+
+def signTab? (s : Sexp) : Option (List ((Key × Msg) × Sig)) := do (← s.asList?).mapM signRow?
+
+def signOf (tab : List ((Key × Msg) × Sig)) (k : Key) (m : Msg) : Sig :=
+  match tab.lookup (k, m) with
+  | some s => s
+  | none => 0
+
+def signCovers (tab : List ((Key × Msg) × Sig)) (k : Key) (ms : List Msg) : Bool :=
+  ms.all fun m => (tab.lookup (k, m)).isSome
+
+def handle (cmd : String) (args : List Sexp) : Option Sexp :=
+  match cmd, args with
+  | "spend.parseint", [s, bits] => do
+    match parseInt (← s.asStr?) (← bits.asNat?) with
+    | some v => some (.list [.atom "ok", ofInt v])
+    | none => some (.atom "err")
+  | "spend.hex", [s] => do
+    match hexDecode (← s.asStr?) with
+    | some bs => some (.list [.atom "ok", Sexp.ofNats (bs.map UInt8.toNat)])
+    | none => some (.atom "err")
+  | "spend.tags", [e, tg] => do
+    let et ← envTab? e
+    let tags ← tags? tg
+    if !(keyStringsOfTags tags).all (fun k => (et.keys.lookup k).isSome) then none
+    else match parseTags et.toEnv tags with
+      | .ok t => some (.list [.atom "ok", ofTags t])
+      | .err er => some (.list [.atom "err", .atom er.name])
+  | "spend.dup", [sigs] => do some (Sexp.ofBool (duplicateSignatures (← sigs.asNats?)))
+  | "spend.hvs", [e, m, sigs, n, keys] => do
+    let et ← envTab? e
+    let env := et.toEnv
+    let m ← m.asNat?
+    let sigs ← sigs.asNats?
+    let keys ← keys.asNats?
+    some (.list [Sexp.ofBool (hasValidSignatures env.valid m sigs (← n.asNat?) keys),
+                 Sexp.ofNat (hvsCount env.valid m sigs keys)])
+  | "spend.p2pk", [e, p] => do
+    let et ← envTab? e
+    let p ← proof? p
+    let s ← p.secret
+    if !et.coversSecret s then none else some (ofOutcome (verifyP2PK et.toEnv p s))
+  | "spend.htlc", [e, p] => do
+    let et ← envTab? e
+    let p ← proof? p
+    let s ← p.secret
+    if !(et.coversSecret s && et.coversPreimage p.witness.preimage) then none
+    else some (ofOutcome (verifyHTLC et.toEnv p s))
+  | "spend.verify", [e, ps] => do
+    let et ← envTab? e
+    let ps ← proofs? ps
+    if !ps.all et.coversProof then none else some (ofOutcome (verifyProofs et.toEnv ps))
+  | "spend.issigall", [s] => do
+    let s ← (← secret? s)
+    some (Sexp.ofBool (isSigAll s))
+  | "spend.sigall", [ps] => do some (Sexp.ofBool (proofsSigAll (← proofs? ps)))
+  | "spend.pubkeys", [e, s] => do
+    let et ← envTab? e
+    let s ← (← secret? s)
+    if !et.coversSecret s then none
+    else match publicKeys et.toEnv s with
+      | .ok ks => some (.list [.atom "ok", Sexp.ofNats ks])
+      | .err er => some (.list [.atom "err", .atom er.name])
+  | "spend.outputs", [e, ps, os] => do
+    let et ← envTab? e
+    let ps ← proofs? ps
+    let os ← outputs? os
+    if !(ps.all et.coversProof && os.all et.coversOutput) then none
+    else some (ofOutcome (verifyBlindedMessages et.toEnv ps os))
+  | "spend.swap", [e, ps, os] => do
+    let et ← envTab? e
+    let ps ← proofs? ps
+    let os ← outputs? os
+    if !(ps.all et.coversProof && os.all et.coversOutput) then none
+    else some (ofOutcome (swapSpendCheck et.toEnv ps os))
+  | "spend.melt", [e, ps] => do
+    let et ← envTab? e
+    let ps ← proofs? ps
+    if !ps.all et.coversProof then none else some (ofOutcome (meltSpendCheck et.toEnv ps))
+  -- the declarative specification, decided by exhaustive search (Spec.Spendable)
+  | "spend.spec-p2pk", [e, p] => do
+    let et ← envTab? e
+    let p ← proof? p
+    let s ← p.secret
+    if !et.coversSecret s then none else some (Sexp.ofBool (Spec.Spendable.decideP2PK et.toEnv s p.msg p.witness))
+  | "spend.spec-htlc", [e, p] => do
+    let et ← envTab? e
+    let p ← proof? p
+    let s ← p.secret
+    if !(et.coversSecret s && et.coversPreimage p.witness.preimage) then none
+    else some (Sexp.ofBool (Spec.Spendable.decideHTLC et.toEnv s p.msg p.witness))
+  -- helpers: answer = the witnesses the helper writes
+  | "spend.help-in", [sg, k, ps] => do
+    let tab ← signTab? sg
+    let k ← k.asNat?
+    let ps ← proofs? ps
+    if !signCovers tab k (ps.map (·.msg)) then none
+    else some (.list ((addSignatureToInputs (signOf tab) k ps).map (fun p => ofWitness p.witness)))
+  | "spend.help-out", [sg, k, os] => do
+    let tab ← signTab? sg
+    let k ← k.asNat?
+    let os ← outputs? os
+    if !signCovers tab k (os.filterMap (·.msgDecoded)) then none
+    else match addSignatureToOutputs (signOf tab) k os with
+      | .ok os' => some (.list [.atom "ok", .list (os'.map (fun o => ofWitness o.witness))])
+      | .err er => some (.list [.atom "err", .atom er.name])
+  | "spend.help-htlc-in", [e, sg, ps, s, pre, k] => do
+    let et ← envTab? e
+    let tab ← signTab? sg
+    let ps ← proofs? ps
+    let s ← (← secret? s)
+    let k ← k.asNat?
+    if !(et.coversSecret s && signCovers tab k (ps.map (·.msg))) then none
+    else match addWitnessHTLC et.toEnv (signOf tab) ps s (← pre.asStr?) k with
+      | .ok ps' => some (.list [.atom "ok", .list (ps'.map (fun p => ofWitness p.witness))])
+      | .err er => some (.list [.atom "err", .atom er.name])
+  | "spend.help-htlc-out", [sg, pre, k, os] => do
+    let tab ← signTab? sg
+    let k ← k.asNat?
+    let os ← outputs? os
+    if !signCovers tab k (os.filterMap htlcOutputMsg) then none
+    else match addWitnessHTLCToOutputs (signOf tab) (← pre.asStr?) k os with
+      | .ok os' => some (.list [.atom "ok", .list (os'.map (fun o => ofWitness o.witness))])
+      | .err er => some (.list [.atom "err", .atom er.name])
+  | _, _ => none
 
 end Gonuts.Model.SpendDriver
